@@ -15,6 +15,8 @@ class ChainGen:
         # a chain mixes C numbers with C text operands or with container displays only through generic objects: comparing a
         # C double with a `str`-typed local or a tuple display inside a cascade crashes the compiler (C43-type defect)
         self.cvars = rng.choice([['ci', 'cd', 'cl'], ['cu', 'cs', 'cb'], ['ci', 'cl'], ['cs']]) if typed else []
+        # pure C chains: every operand a C local, a literal or a call of the logging C producer cnx()
+        self.all_c = typed and 'ci' in self.cvars and rng.random() < .5
 
     def key(self):
         self.k += 1
@@ -34,6 +36,10 @@ class ChainGen:
             if r < .85:
                 return 'E.v(%d, %s)' % (self.key(), rng.choice(["'abc'", '(1, 2, 3)', '[1, 2.5]', "{'a': 1}", '{1, 2}', "b'ab'"])), 'V'
             return 'E.v(%d, 5)' % self.key(), 'V'        # not a container: TypeError
+        if self.all_c and allow_typed:
+            if r < .55:
+                return 'cnx(E, %d, %s)' % (self.key(), rng.choice(['0', '1', '1', '2', '3', '5'])), 'C'
+            return rng.choice([v for v in self.cvars if v != 'cd'] + ['1', '3']), 'C'
         if self.typed and allow_typed and r < .35:
             return rng.choice(self.cvars), 'C'
         if r < .6:
@@ -44,11 +50,12 @@ class ChainGen:
 
     def chain(self, length=None):
         rng = self.rng
-        n = length or rng.choice([1, 1, 2, 2, 3, 4])
+        n = length or (rng.choice([1, 1, 2, 2, 3, 4]) if not self.all_c else rng.choice([1, 2, 3, 3, 4, 4]))
         parts = [self.operand()]
         ops = []
         for j in range(n):
-            op = rng.choice(CMP_OPS * 2 + ['is', 'is not', 'in', 'not in', 'in'])
+            op = rng.choice(CMP_OPS * 2 + ['is', 'is not', 'in', 'not in', 'in']) if not self.all_c else \
+                rng.choice(['<=', '<=', '!=', '<', '>=', '==', '>'])
             if self.typed and n >= 3 and op in ('in', 'not in'):
                 # `a in b != ci > c` (membership link inside a cascade of >= 3 links with a C operand) crashes the
                 # compiler: AttributeError 'PyObjectType' object has no attribute 'rank' (C43-type defect)
@@ -252,5 +259,8 @@ def switch_functions(rng, n, start=0):
     return out
 
 
-SWITCH_PRELUDE_PYX = 'cdef enum Color:\n    RED = 1\n    GREEN = 2\n    BLUE = 5\n'
-SWITCH_PRELUDE_REF = 'RED = 1\nGREEN = 2\nBLUE = 5\n'
+# cnx: a logging C producer without error return value - its call is a plain C expression (no temp), so a comparison that
+# pastes an operand twice evaluates it twice
+SWITCH_PRELUDE_PYX = ('cdef enum Color:\n    RED = 1\n    GREEN = 2\n    BLUE = 5\n'
+                      'cdef int cnx(object E, int k, int v) noexcept:\n    E.v(k, v)\n    return v\n')
+SWITCH_PRELUDE_REF = 'RED = 1\nGREEN = 2\nBLUE = 5\ndef cnx(E, k, v):\n    E.v(k, v)\n    return v\n'
